@@ -4,6 +4,34 @@ import json, os, sys
 here = os.path.dirname(os.path.dirname(os.path.abspath(__file__)))
 
 CHECKS = {
+ "C12": dict(level="exploration", design="4/C12",
+   technique="complete enumeration of the small identity domains (all MCC x MNC, all 2^24 AMF ids, all routing indicators) + structured alphabets for TMSI/MSIN/IMEI, against reference coders written from the TS 24.501/24.008/23.003 figures, round trips in both directions",
+   text="nasConvert and the nasType.MobileIdentity5GS text getters are compared with refconv over complete or per-position-exhaustive domains; invalid text must give an error from the WithError variants.",
+   note="Trusted: refconv/ident.go. TMSI/MSIN/IMEI values are covered per position, not completely."),
+ "C13": dict(level="exploration", design="4/C13",
+   technique="exhaustive enumeration of short lists over small alphabets (NSSAI lists to 8 entries, TAI lists, all compositions of service-area lists, every declared entry length), decoded by independent spec decoders",
+   text="The library's encoders must be decodable by reference decoders written from the 9.11.x figures to exactly the input lists; the library's NSSAI / LADN-indication decoders must recover reference-encoded lists and reject malformed lengths.",
+   note="Trusted: refconv/lists.go. The DNN inside LADN is opaque."),
+ "C14": dict(level="exploration", design="4/C14",
+   technique="exhaustive byte-string enumeration per helper (all strings to length 3, alphabet strings beyond, 2-mutation neighbourhoods of valid encodings) in watchdog-isolated worker processes; oracle = no panic / terminates / bounded heap",
+   text="Each of 35 byte-input helpers and 4 text-input variants is executed on every byte string of length 0..2 (0..3 thorough), alphabet strings to length 6/7, structured longer strings and the mutation neighbourhood of 12 valid encodings; hangs and heap blow-ups are caught by the worker watchdog and confirmed by single-case replay.",
+   note="Element-typed getters are judged on decoder-deliverable lengths (MobileIdentity5GS >= 4 octets, DNN >= 1)."),
+ "C15": dict(level="exploration", design="4/C15",
+   technique="exhaustive alphabet-string enumeration into the three parsers + 2-mutation neighbourhoods (totality); bounded exhaustive enumeration of rule / description values with a reference encoder written from figures 9.11.4.12/13 (round trip)",
+   text="All byte strings up to length 4 (5) over a 32-value alphabet and the mutation neighbourhood of full-coverage encodings must parse without panic, unknown identifiers being errors; rule lists over all operations, flags, 0..15 filters and all ordered pairs of the 18 component types, and description lists over 0..63 parameters and all ordered pairs/triples of the 7 kinds must serialise to the reference bytes and parse back to equal values.",
+   note="Trusted: the reference encoder in props/c15.go. Flow labels below 2^19 only."),
+ "C16": dict(level="exploration", design="4/C16",
+   technique="exhaustive enumeration: PCO unit lists, all alphabet byte strings to length 6/8 and a 2-mutation neighbourhood into UnMarshal, all 65 536 PDU session bitmaps in both directions",
+   text="Serialise/parse round trip of container lists, 'no invented contents' oracle on arbitrary bytes (every parsed unit must be literally in the input at the reference reader's offset), complete PSI bitmap space.",
+   note="A trailing incomplete unit may be dropped silently (allowed by the statement)."),
+ "C17": dict(level="exploration", design="4/C17",
+   technique="complete enumeration of every duration, AMBR value x unit x direction, quarter-hour zone x DST, daily and per-second time stamps, name lengths 0..64, against unit tables / BCD / GSM-7 reference decoders",
+   text="All 1 116 001 + 11 161 durations, all 655 360 AMBR inputs, all zone/DST combinations in the stated domain, ~73 000 day boundaries and 1.7 M per-second instants, and names of every length with every septet value at every position (<= 17) are encoded by the library and decoded by reference decoders.",
+   note="Trusted: refconv/misc.go (unit tables of TS 24.008 10.5.7.4/4a, semi-octet BCD, TS 23.038 packing)."),
+ "C18": dict(level="exploration", design="4/C18",
+   technique="exhaustive alphabet-string enumeration into six parsers + 2-mutation neighbourhoods (totality); API-built messages compared with a reference encoder (lengths from content, TS 24.008 PLMN) and decoded back; all MCC x MNC for the PLMN octets",
+   text="All byte strings up to length 5 (7) over a 12-value alphabet, every message type and the mutation neighbourhood of valid encodings must decode without panic; command/complete/reject messages and nested lists built only through the API must encode to the reference bytes and decode to the same structure; SetPlmnDigit must agree with nasConvert.PlmnIDToNas for every MCC 100..999 x MNC 10..999.",
+   note="Trusted: reference encoder in props/c18.go and refconv.PlmnOctets."),
  "C06": dict(level="exploration", design="4/C06",
    technique="deviation-bounded exhaustive enumeration over (key, COUNT, bearer, direction, bit length, pattern) against an independent 128-EEA1/2/3 reference + exhaustive component comparison (all S-box/alpha table entries, lane sweeps of S1/S2/L1/L2, lock-step internal state) through verif hooks",
    text="NEA1/2/3 and NASEncrypt are compared bit for bit with a reference written from the SAGE/ETSI specifications (S-boxes derived algebraically, validated on all published vectors) over every bit length 0..320, all 32x2 bearer/direction pairs, structured key/COUNT alphabets including every single-bit key and COUNT, the full COUNT x bearer x direction grid, and (thorough) all key x COUNT pairs and long inputs.",
